@@ -44,6 +44,10 @@ CLAIMS = {
     text="TLC explores every operation sequence of the explicit TLA+ specification LiquidRuntime up to the stated length from all 9 base maps, checks the declarative scope meaning against the delegation-chain form in every state, and every explored sequence is replayed on the real StackFrame/SandboxedStackFrame/GlobalFrame types with all lookups, roots, counters and register ownership compared after every operation.",
     note="bounded: length 3 (quick) / 4 exhaustive replay, 5 state-space, 6 reduced alphabet + random walks (thorough); values are scalars and one-key objects; trusted: TLC, the harness's encoding of observations.",
     tech=TECH_A, ref="DESIGN.md 7 C18"),
+ "C20": dict(
+    text="LiquidPartials specifies the lazy partial store with threads, a lock and the cache, with check / read-source / compile / insert as separate steps inside the critical section; TLC checks mutual exclusion, at most one compile per name, schedule-independent results, no poisoning, deadlock freedom and (under weak fairness) that every call returns, over all interleavings. Real threads sharing one Parser and its Templates are then recorded (Call / Miss-inside-the-lock / Return events ordered by the recorder's own mutex) and the trace is validated against the specification with TLC: a second miss of a cached name, two threads inside the source, a result that differs from the sequential result, or a call that never returns has no explanation.",
+    note="model: 2-3 threads x 2 calls x 3 names exhaustively; implementation: 150 (quick) / 1500 (thorough) seeded runs of 2..16 threads; schedule coverage on the real code is statistical.",
+    tech=TECH_AB, ref="DESIGN.md 7 C20"),
 }
 
 NOT_YET = "specification and binding for this property are not built yet (work in progress, see DESIGN.md 13)"
